@@ -20,6 +20,7 @@ EXPLANATION = (
     "exchange (R7). Not decided: request-order grants as a property of histories; release order through shared_ptr "
     "reference counting under all copy/destroy interleavings.")
 ASSUMPTIONS = ["std::shared_ptr reference counting is correct", "the mutex object itself is used from one thread at a time when requesting access (documented)"]
+THOROUGH_CONFIGS = [["-UNDEBUG", "-DPIKA_DEBUG"]]
 FLOORS = {"C04.R1": 4, "C04.R2": 3, "C04.R3": 2, "C04.R4": 1, "C04.R5": 6, "C04.R6": 8, "C04.R7": 2}
 
 RW = "pika::execution::experimental::async_rw_mutex_access_type::readwrite"
